@@ -250,7 +250,13 @@ func R11HTTPProfile(c *Ctx) {
 		if call == ssa.CallInstruction(par) {
 			return
 		}
-		if (strings.HasPrefix(n, "(Havoc/pkg/agent.TeamServer).") || strings.HasPrefix(n, "Havoc/pkg/handlers.") || strings.HasPrefix(n, "(*Havoc/pkg/agent.")) && !InstrDominates(par, call) && n != "Havoc/pkg/handlers.peerAddress" {
+		if strings.HasPrefix(n, "Havoc/pkg/handlers.") || strings.HasPrefix(n, "(*Havoc/pkg/handlers.") {
+			// a helper of this package that reaches nothing of the teamserver or the agent protocol is part of the checks themselves
+			if callee := call.Common().StaticCallee(); callee != nil && callee.Blocks != nil && !reachesProtocol(callee) {
+				return
+			}
+		}
+		if (strings.HasPrefix(n, "(Havoc/pkg/agent.TeamServer).") || strings.HasPrefix(n, "Havoc/pkg/handlers.") || strings.HasPrefix(n, "(*Havoc/pkg/handlers.") || strings.HasPrefix(n, "(*Havoc/pkg/agent.")) && !InstrDominates(par, call) && n != "Havoc/pkg/handlers.peerAddress" && n != "(*Havoc/pkg/handlers.HTTP).fake404" {
 			c.R.Bad(rule, fname, "call "+shortCallee(n)+" before admission", c.pos(call.Pos()), "a teamserver/agent call runs before (or beside) the admission checks")
 		}
 	})
@@ -617,4 +623,26 @@ func R11ConfigVerbatim(c *Ctx) {
 		}
 	}
 	c.R.Ok(rule, "-", "no in-place rewrite of configured lists", "-", "scanned every store through an index in the module: "+itoa(n)+" into HTTPConfig.Uris/Headers/Hosts", true)
+}
+
+// reachesProtocol: fn or a same-package helper it calls (three levels) calls into the teamserver interface, the agent
+// package or the request parser — anything that can change state or act on the request body.
+func reachesProtocol(fn *ssa.Function) bool {
+	hit := false
+	for _, f := range HelperClosure(fn, 3) {
+		EachCall(f, func(call ssa.CallInstruction) {
+			n := CalleeName(call)
+			if call.Common().IsInvoke() {
+				if strings.Contains(call.Common().Value.Type().String(), "Havoc/") {
+					hit = true
+				}
+				return
+			}
+			if strings.HasPrefix(n, "(Havoc/pkg/agent.") || strings.HasPrefix(n, "(*Havoc/pkg/agent.") || strings.HasPrefix(n, "Havoc/pkg/agent.") ||
+				strings.HasSuffix(n, ".parseAgentRequest") || strings.HasSuffix(n, ".handleDemonAgent") || strings.HasSuffix(n, ".handleServiceAgent") {
+				hit = true
+			}
+		})
+	}
+	return hit
 }
